@@ -43,6 +43,7 @@ type Profile struct {
 	PGlobal       int  // % of cases run with a global conf.Coercers override (String, Bool or Time) installed
 	PStructIn     int  // % of top-level struct records handed over as a Go struct value instead of a map
 	PTopPtrRecord int  // % of top-level schemas that are Ptr(Struct) over a flat record with exported keys
+	PLongOneOf    int  // % of built-in tests on strings and numbers that are a OneOf over a long list with no custom message
 	NilBias       bool // whole inputs are re-drawn (up to 10 times) until the implementation reports no issues
 	Repeats       int  // how many times a case is re-run (with reshuffled schema insertion orders and varying pool states)
 }
@@ -194,6 +195,19 @@ func (g *Gen) test(n *Node) TestSpec {
 	default:
 		t.ID = g.id()
 		t.User = g.userPred(n.Kind)
+	}
+	if g.P.PLongOneOf > 0 && r.P(g.P.PLongOneOf) {
+		// values a test captured: a long list, reported with the default message (the list is a parameter of the message)
+		switch n.Kind {
+		case KString:
+			t.Builtin, t.Not = "oneof", false
+			t.Strs = append([]string{}, sampleStrings[1:12]...)
+			return t
+		case KInt, KInt32, KInt64:
+			t.Builtin = "oneof"
+			t.Ints = []int64{11, 0, 1, 2, 3, 4, 5, 6, 7, 8, 9, 10}
+			return t
+		}
 	}
 	// True()/False()/EQ() on bool take no options
 	if n.Kind != KBool {
@@ -576,6 +590,7 @@ func ProfileByName(name string) Profile {
 		p.PSlice = 30
 	case "C19":
 		p.PTopPtrRecord = 8
+		p.PLongOneOf = 20
 		p.PDefault = 45
 		p.PSlice = 35
 		p.PPT = 30
